@@ -246,7 +246,12 @@ def build_weights(desc: dict, wdesc: dict) -> Any:
         rng = np.random.default_rng(wdesc["seed"] + k)
         w = 0.5 + rng.random(fsizes)
         coords = {n: make_coord(kind, sz, 0, None) for (n, sz, kind) in fd}
-        da = xr.DataArray(w, dims=fnames, coords=coords, name=names[k])
+        # users commonly derive weights from a coordinate (np.sqrt(np.cos(np.deg2rad(X.lat)))), which leaves
+        # the weights *named after that coordinate*; or they carry no name at all
+        wname = {"coord": fnames[0], "none": None}.get(wdesc.get("name_kind", "var"), names[k])
+        if container == "ds":
+            wname = names[k]         # a weights Dataset needs the variable names of the data
+        da = xr.DataArray(w, dims=fnames, coords=coords, name=wname)
         if desc.get("multiindex") == "feature" and len(fnames) >= 2:
             da = da.stack({desc.get("mi_fname", "fmi"): fnames})
         out.append(da)
